@@ -13,6 +13,8 @@ PARTS = [
      {"p2p/security/tls/zz_c01_verif_test.go": "harness/overlay/tls/c01_verif_test.go"}, (2, 3)),
     ("p2p/net/swarm", "TestVerifC01Swarm$", None,
      {"p2p/net/swarm/zz_c01_verif_test.go": "harness/overlay/swarm/c01_verif_test.go"}, (4,)),
+    ("p2p/transport/quic", "TestVerifC01Quic$", None,
+     {"p2p/transport/quic/zz_c01_verif_test.go": "harness/overlay/quic/c01_verif_test.go"}, (5,)),
 ]
 
 
@@ -162,6 +164,9 @@ def describe(t):
                     "edit": {"kind": ekn.get(r[0]), "direction": {0: "client->server", 1: "server->client"}.get(r[1]), "record": r[2], "byte": r[3]},
                     "client_observed": {"completed": r[4] == 0, "remote": NAME.get(r[5]), "post": r[7]},
                     "server_observed": {"completed": r[8] == 0, "remote": NAME.get(r[9]), "post": r[11]}}
+        if t[0] == 5:
+            return {"stack": "quic transport (TLS identity)", "key_types": [KT.get(t[1]), KT.get(t[2])], "dialer_holds": NAME.get(t[3]), "listener_holds": NAME.get(t[4]),
+                    "dial_expects": NAME.get(t[5]), "dial": {"returned_conn": t[6], "remote": NAME.get(t[7])}, "listener": {"accepted": t[9], "remote": NAME.get(t[10])}}
         if t[0] == 4:
             return {"stack": "swarm", "op": {0: "dialAddr", 1: "DialPeer", 2: "dialPeer over scripted dial sync"}.get(t[3]), "local": t[1], "dialled_peer": t[2],
                     "transport_authenticated": t[4], "returned_conn": t[5], "returned_remote": t[6]}
@@ -181,6 +186,8 @@ def nontrivial(line):
         return t[-12] != b"0" or t[-8] != b"0" or t[-4] != b"0"
     if t[0] == b"4":
         return t[4] != t[2]
+    if t[0] == b"5":
+        return t[6] == b"0"
     return True
 
 
@@ -193,7 +200,7 @@ def key(tag, toks, d):
         return "C01:tls:PubKeyFromCertChain:%s:self-signature-not-checked:%d" % ({0: "ConfigForPeer-callback", 1: "direct"}.get(d[1]), d[3])
     if toks[0] == 3 and tag == "M" and len(d) >= 5 and d[3] == 8:
         return "C01:tls:handshake:%s:self-signature-not-checked:%d" % ({0: "client", 1: "server"}.get(d[2]), d[4])
-    return "C01:%s:%s:%s:%s" % ({2: "tls-verify", 3: "tls-handshake", 4: "swarm"}.get(toks[0], toks[0]), tag, d[:5], " ".join(map(str, toks[:120])))
+    return "C01:%s:%s:%s:%s" % ({2: "tls-verify", 3: "tls-handshake", 4: "swarm", 5: "quic"}.get(toks[0], toks[0]), tag, d[:5], " ".join(map(str, toks[:120])))
 
 
 CLAUSE = {1: "reported peer ID is not the ID of the reported public key", 2: "completed reporting a peer whose key the remote does not hold",
@@ -217,6 +224,9 @@ def what(tag, toks, d):
         return "tls handshake, %s: %s %s" % ({0: "client", 1: "server"}.get(d[2] if len(d) > 2 else -1), CLAUSE.get(c, "diag %s" % d), d[4:])
     if toks[0] == 4:
         return "swarm: %s: %s" % (CLAUSE[7], json.dumps(describe(toks)))
+    if toks[0] == 5:
+        c = d[3] if len(d) > 3 else 0
+        return "quic, %s: %s; %s" % ({0: "dialer", 1: "listener"}.get(d[2] if len(d) > 2 else -1), CLAUSE.get(c, "diag %s" % d), json.dumps(describe(toks)))
     return "diag %s" % d
 
 
@@ -250,6 +260,7 @@ if __name__ == "__main__":
              "(3) real tls.Transport pairs whose certificates were replaced by those presentations on either side x expected-peer settings, and a record-aware man in the middle: byte flips of every handshake record "
              "(content type, length, payload; all positions in thorough), truncate/extend/drop/duplicate/splice; after an undisturbed handshake one byte is exchanged each way (first Read on the client reports a server-side rejection). "
              "Swarm: (4) dialAddr, DialPeer and dialPeer-over-a-scripted-dial-sync on a real Swarm whose transport authenticates every peer 0..4 for every dialled peer 1..4. "
+             "QUIC: (5) real QUIC transports over loopback UDP (they reuse Identity.ConfigForPeer / PubKeyFromCertChain): dialer A or E x listener B or E x every expected peer x key types; Dial's result, the listener's Accept, RemotePeer()/RemotePublicKey() on both ends. "
              "Every outcome is compared with the Coq model (conform_case) and judged by the property monitor (monitor_case). Non-trivial = edited, forged/mutated, refused, or a wrong-peer connection offered.",
         describe=describe, key=key, what=what, crosscheck=150,
     ))
